@@ -15,6 +15,7 @@ mod runner;
 mod gen;
 mod scen_body;
 mod scen_head;
+mod scen_hostile;
 mod scen_redirect;
 mod scen_graph;
 mod scen_exchange;
@@ -302,6 +303,20 @@ fn props() -> Vec<Prop> {
             cells_total: 0,
             cells_what: "",
             exhaustive_note: "",
+        },
+        Prop {
+            id: "C12",
+            scenario: "hostile",
+            run: scen_hostile::c12,
+            quick: 90_000,
+            thorough: 5_000_000,
+            subs: &["mutated-exchanges", "alphabet-strings", "oversize-items"],
+            level: "fault_enumeration",
+            rule: "three interleaved sub-batches: (0) valid exchanges for every request configuration with 1..4 grammar-aware mutations of the server stream (bit flip, delete, duplicate, splice, decimal bloat, hex bloat, stray CR/LF, header flood, truncation, alphabet garbage; positions biased to structural bytes) under drawn arrival / buffer / timer schedules; (1) byte strings over a 23-symbol protocol alphabet enumerated by the run index - every string up to length 3 in quick, up to length 4 in thorough, drawn strings of length 5..8 beyond - offered to try_read_100, try_response and read in all three framings, one-shot and sliced; (2) oversize items (field name of 65535..70000 bytes, 20..40 digit length, 16..19 digit chunk size, 127..135 fields, five close conditions at once, giant reason / value / chunk extension); after the exchange comes to rest state-advancing calls are made on whatever state is left; every run is non-trivial; distinct = abstract trace (path length, end kind, call count)",
+            assumptions: &[A_COMMON, "no claim about which error is returned", "hang detection: per-exchange step budget derived from the message sizes, plus a 30 s wall-clock watchdog per run"],
+            cells_total: 16,
+            cells_what: "error site (Await100 / RecvResponse / RecvBody / other) + target call of the alphabet strings (5) + oversize kind (7)",
+            exhaustive_note: "alphabet strings: all 14425 strings up to length 3 (quick) / all 346201 up to length 4 (thorough) are enumerated; each is offered to one drawn target call per run",
         },
     ]
 }
